@@ -78,9 +78,11 @@ LawDistribute == \A i, j \in 1..Len(store) : Finite(store[i]) /\ Finite(store[j]
 
 \* FactorDict.dot on the final store: for every pair of objects over the same non-empty scope the sum over named assignments of the
 \* product (whatever the axis orders of the two objects are)
+\* (integer-valued operands with entries <= 3000 only: the sum of <= 81 products stays inside TLC's 32-bit integers)
+SmallInt(f) == \A a \in DOMAIN f.val : f.val[a][2] = 1 /\ f.val[a][1] <= 3000
 Dots == UNION {{[i |-> i, j |-> j, v |-> FDot(dom, store[i], store[j])] :
-                    j \in {k \in i..Len(store) : store[k].scope = store[i].scope /\ ~HasInf(store[k])}}
-               : i \in {k \in 1..Len(store) : store[k].scope # {} /\ ~HasInf(store[k])}}
+                    j \in {k \in i..Len(store) : store[k].scope = store[i].scope /\ SmallInt(store[k])}}
+               : i \in {k \in 1..Len(store) : store[k].scope # {} /\ SmallInt(store[k])}}
 Emit == (Len(hist) = MaxDepth \/ (EmitAll /\ Len(hist) > 0)) =>
            PrintT(ToJson([pool |-> P.id, steps |-> hist, dots |-> Dots]))
 =============================================================================
